@@ -41,23 +41,16 @@ func c05r1(c *Ctx) {
 	for _, fn := range classifierFuncs(p) {
 		name := fn.Name()
 		var nilEdges []Edge
-		for _, i := range allIfs(fn) {
-			x, eq, ok := nilCmp(i.Cond)
-			if !ok {
-				continue
-			}
-			call, isCall := x.(*ssa.Call)
+		for _, nt := range nilTests(fn) {
+			call, isCall := nt.X.(*ssa.Call)
 			if !isCall {
 				continue
 			}
 			if o := calleeObj(call); o == nil || o.Name() != "GetWatchedResource" {
 				continue
 			}
-			idx := 1
-			if eq {
-				idx = 0
-			}
-			nilEdges = append(nilEdges, Edge{i.Block(), idx})
+			// the other edge is the one on which the record may be absent
+			nilEdges = append(nilEdges, Edge{nt.If.Block(), 1 - nt.NonNilIdx})
 		}
 		c.Check(name+":previous-record test present", fn.Pos(), len(nilEdges) == 1, "expected exactly one nil test of GetWatchedResource's result")
 		if len(nilEdges) != 1 {
